@@ -107,6 +107,8 @@ def capacity_gate(lf, year, cg, res):
         # unit-level witness: confirm through the public API on a (rows+1)-copy return
         part = cg['form'] + '.part_3'
         extra = [rm.solved, tm.eq(cnt, tm.I(1))]
+        # the other listing stays empty, so that the form is filed because of this one
+        extra += [tm.eq(tm.var('i:' + o, 'I'), tm.I(0)) for o in cg['counts'] if o != cname]
         if part in rm.dem:
             extra.append(rm.dem[part])
         r, base, _m = lf.query(extra)
